@@ -657,7 +657,20 @@ class Builder:
             return self.const(op == 'and', at)
         if len(rest) == 1:
             return rest[0]
+        if len(rest) == len(vals) and self._value_like(rest[-1]):
+            # `a or b` / `a and b` used for its VALUE (`kwargs.get('k') or default`): a if a else b / b if a else a
+            out = rest[-1]
+            for v in reversed(rest[:-1]):
+                out = self.mk('phi', None, [v, v, out] if op == 'or' else [v, out, v], at=at)
+            return out
         return self.mk('bool', op, rest, at=at)
+
+    @staticmethod
+    def _value_like(n):
+        """Certainly not a truth value: a number, a parameter, arithmetic."""
+        if n.kind == 'const':
+            return isinstance(n.val, (int, float)) and not isinstance(n.val, bool)
+        return n.kind in ('param', 'binop')
 
     def e_IfExp(self, e):
         c = self.eval(e.test)
